@@ -97,7 +97,8 @@ func SetMulticastInterface(
 
 	if found {
 		var addr [4]byte
-		copy(addr[:], interfaceAddr)
+		// interfaceAddr is usually in the 16-byte form; its first four bytes are zero.
+		copy(addr[:], interfaceAddr.To4())
 
 		if err := syscall.SetsockoptInet4Addr(
 			socket.RawFd(),
